@@ -135,7 +135,7 @@ func main() {
 	}
 
 	// 2. payloads
-	nt := run.Count(650, 30000)
+	nt := run.Count(600, 30000)
 	for i := 0; i < nt+trcgen.Boundaries; i++ {
 		r := rng.Fork(uint64(1000000 + i))
 		isd := uint64(r.Range(1, 3))
